@@ -5,9 +5,12 @@ prefix tree of one behaviour per distinct (state, last action) of the code-follo
 msg servers / epoch hook of the full app; impl->spec validation of recorded random histories (gauges with 1-3
 reward denominations, receivers != owner, locks added / unlocking / unlocked between epochs, 10-40 epoch ends).
 Rules the code has and the property does not are NAMED deviations of the epoch-end action; every step where one of
-them changes the outcome on the real code is reported as a finding (ctx.finding)."""
+them changes the outcome on the real code is reported as a finding (ctx.finding).
+Design level, unbounded: Apalache inductive invariant + TLAPS proof of the gauge budget arithmetic (spec/apa/IncentivesInd.tla,
+IncentivesProof.tla; apalache_leg)."""
 import concurrent.futures, json, os, re, time
 import vlib
+import checks.apalache as apalache
 from vlib import Infra, Violation, log
 
 TRUST = ("Trusted: TLC evaluator, Json/IOUtils community modules, harness projection functions "
@@ -16,7 +19,8 @@ MANIFEST = {
     "engine": "tlc+go-harness", "design_ref": "DESIGN.md section 4 (C09), section 7 item 6",
     "technique": "TLA+ spec Incentives.tla (extends Lockup.tla) with the epoch end as one deterministic action; TLC exhaustive MC of "
                  "the property's reading; TLC-generated behaviours of the code-following model replayed as a prefix tree on the real "
-                 "msg servers and AfterEpochEnd hook of the full app; recorded random histories trace-validated by TLC",
+                 "msg servers and AfterEpochEnd hook of the full app; recorded random histories trace-validated by TLC; Apalache inductive "
+                 "invariant + TLAPS proof of the gauge budget arithmetic over unbounded integers (design level)",
     "text": "Incentives.tla models MsgCreateGauge / MsgAddToGauge (fees, deposits, upcoming list), the lockup actions and the incentives "
             "AfterEpochEnd hook: activation of upcoming gauges with start <= block time, per active gauge the payment "
             "floor(remaining * lockAmt / (totalQualifying * remainingEpochs)) per coin to each qualifying lock's reward receiver unless worth "
@@ -28,7 +32,14 @@ MANIFEST = {
             "exhaustively on bounded models (2 gauges, one perpetual, <= 3 locks, <= 4 epochs, amounts <= 12). The code-following model "
             "(named deviations: 100-unit 'spam' skip, finish without qualifying locks in the last epoch, per-owner batching of receivers) "
             "is replayed on the real app state by state; random histories are validated line by line and every line where a deviation "
-            "changes the outcome is reported as a finding.",
+            "changes the outcome is reported as a finding. Design level, unbounded parameters: for any deposit, top-ups, number of epochs, "
+            "perpetual or not, any other gauges sharing the module account and ANY per-epoch payout with payout * remainingEpochs <= remaining "
+            "(what the sum of floor shares guarantees), distributed <= deposited, paid = recorded, module account >= undistributed remainders of "
+            "unfinished gauges, finished exactly when numEpochs paying epochs are filled and final afterwards are an inductive invariant (plus "
+            "action invariants) of the typed sub-model spec/apa/IncentivesInd.tla, checked by Apalache (initiation, consecution, implication, "
+            "three broken variants that must fail) and, for the state invariant, proved by TLAPS (IncentivesProof.tla); lock sets, receivers "
+            "and the named deviations are outside that sub-model and the binding to "
+            "the Go code remains the TLC trace/replay legs.",
     "note": TRUST + " Transactions and the epoch hook are emulated as baseapp / x/epochs do (ValidateBasic, cache context written only on "
             "success, panics recovered). The per-denomination minimum amount is read from the pool registered for the pair (swap of the "
             "minimum value without fee), the same source the module uses. NoLock (CL), ByGroup and synthetic-denomination gauges and gauges "
@@ -209,9 +220,28 @@ def validate(trace_path, parallel=None, timeout=2400, heap="3g"):
     return gen, dist, nlines, devs, cover
 
 
+def apalache_leg(ctx, cov):
+    """Design level, UNBOUNDED (any deposit, top-ups, number of epochs, perpetual or not, any payout within the floor rule's
+    bound): IndInv of spec/apa/IncentivesInd.tla is inductive and implies the budget / lifecycle part of C09.  Never a verdict
+    about the code: unexpected outcomes are Infra."""
+    if apalache.skipped():
+        log("VERIF_NO_APALACHE: unbounded design-level leg skipped")
+        cov["apalache"] = {"skipped": "VERIF_NO_APALACHE"}
+        return
+    ctx.leg = "apalache"
+    legs = apalache.standard_legs(broken=[
+        ("NextBrokenNoBound", "IndInv", "payout bound dropped (any payout >= 0): WithinDeposit must break"),
+        ("NextBrokenEpochs", "IndInv,StepProperty", "per-epoch amount computed over one epoch too few: PaysWithinEpochBudget must break"),
+        ("NextBrokenTopUp", "IndInv,StepProperty", "top-up accepted by a finished gauge: FinishedIsFinal must break")])
+    cov.update(apalache.run("C09", "IncentivesInd.tla", legs, tlaps="IncentivesProof.tla",
+                            theorems=["Init => IndInv", "IndInv /\\ [Next]_vars => IndInv'", "Spec => []Property"]))
+
+
 def run(ctx):
     q = ctx.quick
     cov = {"samples": []}
+    # 0. design, unbounded parameters: inductive invariant of the gauge budget arithmetic (Apalache)
+    apalache_leg(ctx, cov)
     # VERIF_C09_LEGS=mc,replay,trace,zero (development / selftest convenience; default: all)
     legs = set((os.environ.get("VERIF_C09_LEGS") or "mc,replay,trace,zero").split(","))
     heap = "6g"
@@ -350,7 +380,7 @@ def run(ctx):
                     counts[k] = counts.get(k, 0) + v
         log("recorded %d histories from the real app in %.0fs" % (nh, time.time() - t1))
         for need in ("create", "addg", "lock", "add", "begin", "unlock", "setrr", "extend", "advance", "epoch", "create:refused", "addg:refused",
-                     "history:below", "history:above", "history:foo-not-valuable", "history:min-denom-not-base"):
+                     "history:below", "history:above", "history:nomin", "history:foo-not-valuable", "history:min-denom-not-base"):
             if counts.get(need, 0) == 0:
                 raise Infra("recorder produced no %s events: driver is not exercising the property" % need)
         if counts.get("epoch:refused", 0):
@@ -421,6 +451,9 @@ def run(ctx):
                 "checker_cmd": "bin/check C09 --tier " + ctx.tier})
     vlib.write_evidence("C09", ctx.tier, ctx.seed, "model_checking", cov, time.time() - ctx.t0,
                         ["TLC evaluator; Json/IOUtils community modules",
+                         "Apalache + Z3 / tlapm + its backends for the unbounded design-level leg (a statement about the typed sub-model spec/apa/IncentivesInd.tla: one gauge, "
+                         "one denomination, the other gauges as one aggregate, the per-epoch payout any value within the floor rule's bound; it never "
+                         "replaces a TLC leg)",
                          "harness projection: gauges read by id plus their membership in the upcoming / active / finished lists, bank balances of the "
                          "incentives and lockup module accounts and of every account, lock records by id (shared by both binding directions)",
                          "transactions and the epoch hook emulated as baseapp / x/epochs do: ValidateBasic, cache context written only on success, panics recovered",
